@@ -87,7 +87,7 @@ SAYS = ['', '', ' TITL M\udcfcller in P-1   (a byte that is not UTF-8, as SHELXL
         ' ** MERG code changed to 0 **', ' ** Bond(s) to C1 ignored **', ' wR2 = 0.1 before cycle 1 for 2000 data', ' +  m   finished at 12:00:00   Total elapsed time: 1.0 secs  +']
 
 
-def run_refine(tmp, text, newtext, mode, cycles, keep=False, stem='m', lst='none', block_saves=False, say='', from_ins=False):
+def run_refine(tmp, text, newtext, mode, cycles, keep=False, stem='m', lst='none', block_saves=False, say='', from_ins=False, backup=True, debug=False, then=None):
     if not keep:
         for f in os.listdir(tmp):
             p = os.path.join(tmp, f)
@@ -117,18 +117,33 @@ def run_refine(tmp, text, newtext, mode, cycles, keep=False, stem='m', lst='none
     os.environ['FAKE_MODE'] = mode
     os.environ['FAKE_SAY'] = say
     res = {'raised': None}
-    shx = Shelxfile()
+    shx = Shelxfile(debug=debug)
     try:
         with contextlib.redirect_stdout(io.StringIO()):
             shx.read_file(stem + ('.ins' if from_ins and not keep else '.res'))
             pre_lines = [str(x) for i, x in enumerate(shx._reslist) if i not in shx.delete_on_write and str(x) != '']
             had_acta = shx.acta is not None
             try:
-                res['returned'] = shx.refine(cycles)
+                res['returned'] = shx.refine(cycles) if backup else shx.refine(cycles, backup_before=False)
             except SystemExit:
                 res['raised'] = 'SystemExit'
             except BaseException as e:
                 res['raised'] = type(e).__name__ + ': ' + str(e)
+            # the object after the run, before anything else happens to it
+            res['acta_in_object'] = shx.acta is not None
+            res['object_lines'] = [str(x) for i, x in enumerate(shx._reslist) if i not in shx.delete_on_write and str(x) != '']
+            if then is not None:
+                # a second run with the same object (the first one may have failed)
+                os.environ['FAKE_MODE'] = then
+                try:
+                    res['then_returned'] = shx.refine(cycles)
+                    res['then_raised'] = None
+                except SystemExit:
+                    res['then_raised'] = 'SystemExit'
+                except BaseException as e:
+                    res['then_raised'] = type(e).__name__ + ': ' + str(e)
+                res['then_acta_in_object'] = shx.acta is not None
+                res['then_object_lines'] = [str(x) for i, x in enumerate(shx._reslist) if i not in shx.delete_on_write and str(x) != '']
     finally:
         os.chdir(cwd)
         os.environ['PATH'] = old_path
@@ -342,6 +357,47 @@ def run(ctx):
                         common.add_violation(ctx, 'after a crash of the process during the SHELXL run the previous model is neither in the .res file nor in the backup file',
                                              {'text': text, 'mode': 'crash_' + variant}, 'previous .res bytes in .res or .shx-bak',
                                              {'res': None if cr['res'] is None else cr['res'][:80], 'backup': None if cr['bak'] is None else cr['bak'][:80]})
+            # backup off: a failed run must not bring back the backup of an EARLIER run (an older model than the one SHELXL started from)
+            if k % 2 == 0:
+                for mode in ('fail_code', 'empty', 'missing'):
+                    r1 = run_refine(tmp, text, newtext, 'ok', 4)
+                    after_first = r1['res']
+                    if r1['raised'] or after_first != newtext or text == newtext:
+                        continue
+                    newer = newtext.replace('REM refined by the stand-in', 'REM refined twice')
+                    r2 = run_refine(tmp, after_first, newer, mode, 2, keep=True, backup=False)
+                    ev += 1
+                    hist['backup off'] = hist.get('backup off', 0) + 1
+                    if r2['res'] == text:
+                        common.add_violation(ctx, 'a failed run without backup (%s) put the backup of an earlier run over the .res file: the result of the run in between is lost' % mode,
+                                             {'text': text, 'mode': 'ok, then %s with backup_before=False' % mode}, 'the .res as SHELXL left it, or the result of the first run',
+                                             'the model from before the first run')
+                        break
+            # a failed run followed by a successful one with the same object: ACTA stays part of the model
+            if k % 2 == 1 and any(l.upper().startswith('ACTA') for l in text.split('\n')):
+                for mode in ('fail_code', 'empty'):
+                    r = run_refine(tmp, text, newtext, mode, 4, then='ok')
+                    ev += 1
+                    hist['failed then ok'] = hist.get('failed then ok', 0) + 1
+                    case_ = {'text': text, 'mode': mode + ', then ok (same object)'}
+                    if r['raised'] != 'SystemExit':
+                        continue
+                    if not r['acta_in_object'] or not any(l.upper().startswith('ACTA') for l in r['object_lines']):
+                        common.add_violation(ctx, 'after a failed run the model in memory has lost its ACTA instruction', case_, 'ACTA in the object', r['object_lines'][:12])
+                        break
+                    if r.get('then_raised') is None and not any(l.upper().startswith('ACTA') for l in r.get('then_object_lines', [])):
+                        common.add_violation(ctx, 'after a failed and then a successful run ACTA is not back in the model', case_, 'ACTA after UNIT', r['then_object_lines'][:12])
+                        break
+            # debug mode: a failed run with the listing SHELXL leaves behind then (a few lines) still restores the .res
+            if k % 3 == 2:
+                for mode in ('fail_code', 'empty'):
+                    r = run_refine(tmp, text, newtext, mode, 4, lst='truncated', debug=True)
+                    ev += 1
+                    hist['debug mode failure'] = hist.get('debug mode failure', 0) + 1
+                    if r['res'] != text:
+                        common.add_violation(ctx, 'in debug mode a failed run (%s) with an incomplete listing file does not restore the previous .res' % mode,
+                                             {'text': text, 'mode': mode + ' (debug=True, truncated .lst)'}, 'previous .res', {'raised': r['raised'], 'res': None if r['res'] is None else r['res'][:80]})
+                        break
             # histories: a successful run followed by a failing one in the same directory (the backup must be the one of the last run)
             for mode in sorted(FAILS):
                 r1 = run_refine(tmp, text, newtext, 'ok', 4)
